@@ -760,3 +760,49 @@ def enumerate_cases(cfg, depth, preamble=(), alphabet=small_alphabet, limit=None
                 return
             yield from rec(prefix + [ev], d - 1)
     yield from rec(list(preamble), depth)
+
+
+# ---------------------------------------------------------------- helpers shared by the property drivers
+def shrink(cfg, events, pred):
+    """drop events (from the end first) while pred(cfg, events) stays true"""
+    events = list(events)
+    changed = True
+    while changed:
+        changed = False
+        for i in range(len(events) - 1, -1, -1):
+            cand = events[:i] + events[i + 1:]
+            try:
+                if pred(cfg, cand):
+                    events, changed = cand, True
+            except Exception:
+                pass
+    return events
+
+
+def first_difference(impl_trace, model_trace):
+    """(step index, impl step outputs, model step outputs) of the first differing step"""
+    sa, _ = split_steps(impl_trace)
+    sb, _ = split_steps(model_trace) if model_trace and model_trace != [-99] else ([], [])
+    k = next((k for k, (x, y) in enumerate(zip(sa, sb)) if x != y), min(len(sa), len(sb)))
+    return k, (sa[k] if k < len(sa) else None), (sb[k] if k < len(sb) else None)
+
+
+ACTIVITY = (OUT_CALLPROC, OUT_FETCH, OUT_OFFREQ, OUT_OFFFETCH, OUT_COMMIT, OUT_SCHED)
+
+
+def run_observed(cfg, events, **kw):
+    """run a case, recording after every step what is left running (Driver.observe)"""
+    quiet()
+    drv = Driver(cfg, **kw)
+    obs = []
+    for ev in events:
+        drv.step(ev)
+        obs.append(drv.observe())
+    return drv, obs
+
+
+def print_case(cfg, events, trace):
+    steps, ends = split_steps(trace)
+    print("cfg", dict(zip(Cfg.FIELDS, cfg.line())))
+    for ev, st, en in zip(events, steps, ends):
+        print("%-18s %-22s -> %s   lp/lc=%s" % (EV_NAMES[ev[0]], list(ev[1:]), st, en))
